@@ -80,3 +80,15 @@ Proof.
   split; [vm_compute; reflexivity|]. right. exists 4, 5, [1].
   repeat split; try reflexivity; unfold MaxPacketSize; lia.
 Qed.
+
+(* TCP framing (tcpPlayerConn.GetNextMessage): whatever the segmentation, the messages read
+   from a stream of valid packets followed by an incomplete tail are exactly the packets'
+   encodings, in order; the stream then ends as the tail dictates *)
+Theorem C06_framing : forall ps tail, Forall valid_pkt ps -> incomplete tail ->
+  read_frames (stream ps ++ tail) = (map enc_bytes ps, tail_end tail).
+Proof. exact read_frames_stream. Qed.
+Print Assumptions C06_framing.
+
+Theorem C06_framing_total : forall s, snd (read_frames s) <> FFuel.
+Proof. intro s. apply frames_total. lia. Qed.
+Print Assumptions C06_framing_total.
